@@ -109,8 +109,7 @@ func init() {
 			"oracle: own denotation function (first path segment equal to an alias is substituted); the selector carrying the position's own symbol must resolve (go/types) to the denoted package, every path imported once, local names distinct, file type-checks (import block = packages used, template's own imports intact). non-trivial = accepted and resolved; distinct = distinct (table, position, written reference)",
 		Assumptions: []string{"fixture packages export identical symbols, so the package a selector resolves to is the only thing that distinguishes a right from a wrong resolution"},
 		BudgetQuick: 240 * time.Second, BudgetThorough: 1200 * time.Second,
-		Prepare:     PrepareUniverse,
-		CaseTimeout: 900 * time.Second,
+		Prepare: PrepareUniverse,
 		Run: func(w *W) {
 			k := 2
 			if !w.Env.Quick() {
